@@ -38,6 +38,10 @@ type SerializeItems<T> = fn(&mut SketchBytes, &[T]);
 type DeserializeItems<T> = fn(SketchSlice<'_>, usize) -> Result<Vec<T>, Error>;
 
 const LG_MIN_MAP_SIZE: u8 = 3;
+/// Largest map size (as log2) accepted from a serialized image.
+const LG_MAX_MAP_SIZE: u8 = 30;
+/// Upper limit for vector capacity reserved from an item count read from a serialized image.
+const MAX_PREALLOCATED_ITEMS: usize = 1 << 12;
 const SAMPLE_SIZE: usize = 1024;
 const EPSILON_FACTOR: f64 = 3.5;
 const LOAD_FACTOR_NUMERATOR: usize = 3;
@@ -483,6 +487,11 @@ impl<T: Eq + Hash> FrequentItemsSketch<T> {
         if lg_cur > lg_max {
             return Err(Error::deserial("lg_cur_map_size exceeds lg_max_map_size"));
         }
+        if lg_max > LG_MAX_MAP_SIZE {
+            return Err(Error::deserial(format!(
+                "lg_max_map_size must be at most {LG_MAX_MAP_SIZE}, got {lg_max}"
+            )));
+        }
 
         let is_empty = (flags & EMPTY_FLAG_MASK) != 0;
         if is_empty {
@@ -503,13 +512,20 @@ impl<T: Eq + Hash> FrequentItemsSketch<T> {
             .map_err(insufficient_data("stream_weight"))?;
         let offset_val = cursor.read_u64_le().map_err(insufficient_data("offset"))?;
 
-        let mut values = Vec::with_capacity(active_items);
+        // The count comes from the image: reserve a bounded amount and grow with the data present.
+        let mut values = Vec::with_capacity(active_items.min(MAX_PREALLOCATED_ITEMS));
+        let mut sum_of_values = 0u64;
         for i in 0..active_items {
-            values.push(cursor.read_u64_le().map_err(|_| {
+            let value = cursor.read_u64_le().map_err(|_| {
                 Error::insufficient_data(format!(
                     "expected {active_items} weights, failed at index {i}"
                 ))
-            })?);
+            })?;
+            // The counters are replayed through update_with_count, which adds them up.
+            sum_of_values = sum_of_values
+                .checked_add(value)
+                .ok_or_else(|| Error::deserial("sum of item weights overflows u64"))?;
+            values.push(value);
         }
 
         let items = deserialize_items(cursor, active_items)?;
@@ -595,7 +611,7 @@ impl<T: FrequentItemValue> FrequentItemsSketch<T> {
     /// ```
     pub fn deserialize(bytes: &[u8]) -> Result<Self, Error> {
         Self::deserialize_inner(bytes, |mut cursor, num_items| {
-            let mut items = Vec::with_capacity(num_items);
+            let mut items = Vec::with_capacity(num_items.min(MAX_PREALLOCATED_ITEMS));
             for i in 0..num_items {
                 let item = T::deserialize_value(&mut cursor).map_err(|_| {
                     Error::insufficient_data(format!(
